@@ -21,7 +21,7 @@ impl Check for C07 {
         tier.sz(3200, 40000)
     }
     fn rule(&self) -> &'static str {
-        "per case one generated grammar without derivation cycle (and whose table has no endless reduction loop), a cost table and 5 inputs: long inputs with up to 10 independent errors (up to 40/60 lexemes), pure garbage, deeply nested prefixes cut off at end of input; parsed (a) with the production 500 ms wall-clock budget and (b) with logical step budgets {50, 500, 5000} so that 'budget ran out mid-parse' paths are driven deterministically, (c) with real wall-clock budgets of 0 and 2 ms (the parser's own deadline arithmetic), (d) every fourth case: one input under every step budget 0..40 (the budget expires inside each phase of a recovery); every 16th case instead: a sentence followed by k junk lexemes whose only repair is k deletions costing 65535-2d .. 65535+3d in total (the u16 cost ceiling); checked: the parse returns; error lexemes strictly increase; consecutive errors are >= 3 real lexemes apart (measured from where parsing resumed after the repair) unless the later one is at/after the end of input; count <= n+1; every error but the last has a repair; value <=> every error has a repair; (value, no errors) => input is a sentence (Earley) with leaves = input. Non-trivial = parse with >= 2 errors; distinct by (grammar, input, budget)."
+        "per case one generated grammar without derivation cycle (and whose table has no endless reduction loop), a cost table and 5 inputs: long inputs with up to 10 independent errors (up to 40/60 lexemes), pure garbage, deeply nested prefixes cut off at end of input; parsed (a) with the production 500 ms wall-clock budget and (b) with logical step budgets {50, 500, 5000} so that 'budget ran out mid-parse' paths are driven deterministically, (c) with real wall-clock budgets of 0 and 2 ms (the parser's own deadline arithmetic), (d) every fourth case: one input under every step budget 0..40 (the budget expires inside each phase of a recovery); every 16th case instead: a sentence followed by k junk lexemes whose only repair is k deletions costing 65535-2d .. 65535+3d in total (the u16 cost ceiling); every 32nd case instead: S: A^K 'end' (K = 15..20, A: 'p' | 'q') with the A's missing, under the production budget (one success node stands for 2^K merged sequences); checked: the parse returns; error lexemes strictly increase; consecutive errors are >= 3 real lexemes apart (measured from where parsing resumed after the repair) unless the later one is at/after the end of input; count <= n+1; every error but the last has a repair; value <=> every error has a repair; (value, no errors) => input is a sentence (Earley) with leaves = input. Non-trivial = parse with >= 2 errors; distinct by (grammar, input, budget)."
     }
     fn assumptions(&self) -> Vec<&'static str> {
         vec![
@@ -33,7 +33,7 @@ impl Check for C07 {
         tier.sz(1200, 15000)
     }
     fn required_counters(&self, _t: Tier) -> Vec<&'static str> {
-        vec!["parses", "parses_with_2plus_errors", "parses_where_budget_ran_out", "parses_production_budget", "errors_at_eof", "accepted_unchanged", "budget_sweeps", "parses_at_the_cost_ceiling", "ceiling_inputs_repaired", "ceiling_inputs_given_up"]
+        vec!["parses", "parses_with_2plus_errors", "parses_where_budget_ran_out", "parses_production_budget", "errors_at_eof", "accepted_unchanged", "budget_sweeps", "parses_with_exponentially_many_merged_sequences", "parses_at_the_cost_ceiling", "ceiling_inputs_repaired", "ceiling_inputs_given_up"]
     }
     fn case_cap_s(&self, _t: Tier) -> u64 {
         45
@@ -43,6 +43,9 @@ impl Check for C07 {
     }
     fn run_case(&self, seed: u64, idx: u64, tier: Tier) -> CaseOut {
         let mut out = CaseOut::new();
+        if (idx / 16 + idx) % 32 == 9 {
+            return wide_merge_case(seed, idx);
+        }
         if (idx / 16 + idx) % 16 == 5 {
             // (selector spread over all worker shards)
             return cost_ceiling_case(seed, idx);
@@ -285,6 +288,68 @@ fn cost_ceiling_case(seed: u64, idx: u64) -> CaseOut {
             out.count("ceiling_inputs_given_up", 1);
         }
         out.nontrivial(hash_str(&format!("ceiling{k}{junk_cost}{:?}", sentence)));
+    }
+    out
+}
+
+/// One success node standing for 2^K explicit repair sequences: S: A^K 'end'; A: 'p' | 'q'; with
+/// (almost) all the A's missing. Under the production wall-clock budget the parse must still come back
+/// (with or without repairs): the budget has to be honoured while merged sequences are expanded, too.
+fn wide_merge_case(seed: u64, idx: u64) -> CaseOut {
+    let mut out = CaseOut::new();
+    let mut rng = Rng::derive(seed, "C07-wide", idx, 0);
+    let k = rng.range(15, 20);
+    let mut g = AG::new(AKind::OriginalGeneric, "wide-merge");
+    let s_ = g.rule("S");
+    let a_ = g.rule("A");
+    let p = g.tok("p");
+    let q = g.tok("q");
+    let end = g.tok("end");
+    let mut syms: Vec<ASym> = (0..k).map(|_| ASym::R(a_)).collect();
+    syms.push(ASym::T(end));
+    g.add_prod(s_, syms);
+    g.add_prod(a_, vec![ASym::T(p)]);
+    g.add_prod(a_, vec![ASym::T(q)]);
+    let b = match build_grm(&g) {
+        Ok(b) => b,
+        Err(e) => {
+            out.violate("grammar-build-failed", &["harness"], e, json!(null));
+            return out;
+        }
+    };
+    let Ok(Ok((_, st))) = guarded(|| b.table()) else { return out };
+    out.count("wide_merge_cases", 1);
+    let cost = |_: TIdx<u32>| -> u8 { 1 };
+    for given in [0usize, 1, 2] {
+        let mut inp: Vec<usize> = (0..given).map(|i| if i % 2 == 0 { p } else { q }).collect();
+        inp.push(end);
+        let toks: Vec<TIdx<u32>> = inp.iter().map(|t| b.tok[*t]).collect();
+        let si = syn_input(&toks, &mut rng, true);
+        out.evals += 1;
+        out.count("parses", 1);
+        out.count("parses_with_exponentially_many_merged_sequences", 1);
+        let detail = || json!({"grammar": b.src, "input": inp.iter().map(|t| g.tokens[*t].name.clone()).collect::<Vec<_>>(), "budget": "production-500ms", "k": k});
+        trace(|| format!("wide merge: K={k}, {given} of the A's present, production budget"));
+        let rec = match record_parse(&b, &st, &si, &cost, Budget::Production) {
+            Ok(r) => r,
+            Err(p) => {
+                out.violate("panic", &["parse", "wide-merge"], format!("parse with recovery panicked instead of returning: {p}"), detail());
+                continue;
+            }
+        };
+        out.max("wide_merge_parse_wall_ms", rec.wall_ms as u64);
+        for m in &rec.malformed {
+            out.violate("malformed-result", &[], m.clone(), detail());
+        }
+        let errs = &rec.errors;
+        if errs.is_empty() {
+            out.violate("non-sentence-accepted-silently", &["wide-merge"], "no error reported for an input with missing lexemes".into(), detail());
+        }
+        let all_repaired = errs.iter().all(|e| !e.repairs.is_empty());
+        if rec.tree.is_some() != all_repaired {
+            out.violate("value-vs-repairs", &["wide-merge"], format!("value returned = {}, every error has a repair = {}", rec.tree.is_some(), all_repaired), detail());
+        }
+        out.nontrivial(hash_str(&format!("wide{k}{given}")));
     }
     out
 }
